@@ -240,14 +240,25 @@ impl ToRange for Entry<'_> {
     }
 }
 
+/// The text range of a declared name is the range of its identifier token:
+/// the last token of the identifier's node, whose range may start with comments.
+fn name_text_range(name: &Identifier, tokens: &[crate::tokens::Token]) -> Range<usize> {
+    let range = name.to_range();
+    if range.is_empty() {
+        name.to_text_range(tokens)
+    } else {
+        tokens[range.end - 1].range.clone()
+    }
+}
+
 // TODO: Remove
 impl ToTextRange for Entry<'_> {
     fn to_text_range(&self, tokens: &[crate::tokens::Token]) -> Range<usize> {
         use Entry::*;
         match self {
-            Type(t) => t.name.to_text_range(tokens),
-            Procedure(p) => p.name.to_text_range(tokens),
-            Variable(v) | Parameter(v) => v.name.to_text_range(tokens),
+            Type(t) => name_text_range(&t.name, tokens),
+            Procedure(p) => name_text_range(&p.name, tokens),
+            Variable(v) | Parameter(v) => name_text_range(&v.name, tokens),
         }
     }
 }
@@ -275,8 +286,8 @@ impl ToTextRange for GlobalEntry {
     fn to_text_range(&self, tokens: &[crate::tokens::Token]) -> Range<usize> {
         use GlobalEntry::*;
         match self {
-            Procedure(p) => p.name.to_text_range(tokens),
-            Type(t) => t.name.to_text_range(tokens),
+            Procedure(p) => name_text_range(&p.name, tokens),
+            Type(t) => name_text_range(&t.name, tokens),
         }
     }
 }
